@@ -16,6 +16,7 @@ from __future__ import annotations
 
 import json
 import sqlite3
+import zlib
 
 from hypothesis import HealthCheck, given, seed, settings, strategies as st
 
@@ -473,6 +474,9 @@ def P_expr(e, left=False):
     if k == "case":
         return ["case", [[P_expr(e[1], True), P_expr(e[2])]], P_expr(e[3]) if e[3] is not None else None]
     if k in ("eq", "ne", "gt", "ge", "lt", "le"):
+        if zlib.crc32(json.dumps(e).encode()) % 3 == 0:
+            # the comparison's named method (a.gte(b) ...) instead of the operator: one in three, chosen by the expression itself
+            return ["call", P_expr(e[1], True), {"eq": "eq", "ne": "ne", "gt": "gt", "ge": "gte", "lt": "lt", "le": "lte"}[k], [P_expr(e[2])]]
         return [k, P_expr(e[1], True), P_expr(e[2])]
     if k in ("and", "or"):
         return [k, P_expr(e[1], True), P_expr(e[2], True)]
